@@ -87,6 +87,11 @@ CHECKS = {
          "A pool of ~95 statement texts (every leaf template, compounds with block and single-statement bodies, empty statement, pragma/annotation lines, definitions); those that parse cleanly alone (decided by the implementation) are concatenated in all sequences of length <= 2 in each of 9 contexts (file, if, else, while, for, case, default, gate, def) and of length 3 at top level (thorough: in every context); the concatenation must have no diagnostic and its statement list must equal the concatenation of the parts' lists by kind, token texts and preorder kind sequence.",
          "Differential oracle, no expected value written by hand. One defect (assignment swallowing the next statement) was repaired by a fix: commit; two are recorded (empty statement after an item; `let` in blocks).",
          "DESIGN.md section 7, C16"),
+ "C17": ("exploration",
+         "exhaustive enumeration of relational variants (layouts within a gap-deviation bound, renamings, all split points, repeated analysis) of every generated program; differential equality with no hand-written expected value",
+         "Every leaf template alone and inside each of 16 contexts after its declarations, statement sequences and (thorough) programs with one injected semantic fault are analysed under: the 7 uniform layouts and every layout deviating from the default in <= 1 gap (thorough <= 2 gaps for short statements) of the statements after the prelude with each of 6 separator flavours (all gaps for the first program); 4 fixed injective renamings of all user identifiers (ASCII, leading underscore, Unicode, keyword-prefixed) plus rotations, reversal and every adjacent swap of the identifiers among themselves; every split at a top-level statement boundary; and twice unchanged. Graph equality (PartialEq), symbol table equality up to the renaming, equal diagnostic kinds, prefix property for statements / symbols / diagnostics, and full equality including positions for the repeated run.",
+         "Layouts beyond the deviation bound and renamings beyond the listed families are not covered. Programs not analysed (rejected or panicking) are skipped and counted.",
+         "DESIGN.md section 7, C17"),
  "C19": ("model_checking",
          "explicit-state exploration of all operation histories on the real SymbolTable, lock-step comparison with a reference stack of maps",
          "All histories of length <= 6 (thorough: <= 8, 4.8e7) over the nine operations of the statement, plus a second alphabet (lookup-or-bind, gate and hardware-qubit bindings) and all short histories from 11 systematic non-initial states, are executed on the real SymbolTable (cloned at branch points); after every operation the result and the full observation vector (look-ups, scope size, depth, every id ever issued, gate and hardware-qubit listings) are compared with the reference model. Reports reference states, transitions and traces executed; every trace runs on the implementation.",
